@@ -102,7 +102,7 @@ func init() {
 			},
 			Components: map[string][]string{"real": {"all of robfig/soy, unmodified build of the current working tree"}, "stub": {"io.Writer (fault-injecting, recording; optionally with Flush or WriteString)", "soymsg.Bundle (identity / reversed / partial catalogue built from the compiled messages; or the real pomsg bundle over generated PO text)"}, "replaced": {}},
 			RequireProbes: []string{"fault_landed_on_entity", "fault_landed_on_escaper-chunk", "fault_landed_on_rawtext", "fault_landed_on_value", "fault_fired_sticky", "fault_fired_transient", "fault_fired_partial", "fault_fired_fullcount", "fault_fired_capacity", "fault_fired_with_pomsg_bundle",
-				"fault_fired_with_catalogue", "api_execute", "api_render", "writer_shape_plain", "writer_shape_flush-nil", "writer_shape_flush-err", "writer_shape_stringwriter", "bundle_has_css", "bundle_has_msg", "bundle_has_literal", "bundle_has_sp", "bundle_has_letc", "bundle_has_log", "bundle_has_param-content", "bundle_has_call"},
+				"fault_fired_with_catalogue", "api_execute", "api_render", "writer_shape_plain", "writer_shape_flush-nil", "writer_shape_flush-err", "writer_shape_stringwriter", "writer_shape_bufferlike", "bundle_has_css", "bundle_has_msg", "bundle_has_literal", "bundle_has_sp", "bundle_has_letc", "bundle_has_log", "bundle_has_param-content", "bundle_has_call"},
 			ProbesNotApplicable: func(agg *Agg) []string {
 				// a renderer that buffers its output makes one write call per render: which kind of text a
 				// failing call carries is then not observable (the byte-capacity enumeration still reaches
@@ -195,7 +195,7 @@ func init() {
 				return []string{"GORACE=halt_on_error=0 exitcode=0 log_path=" + filepath.Join(e.Scratch, "race", "r")}
 			},
 			ExtraFn:       func(e *Env) []string { return []string{"-racelog", filepath.Join(e.Scratch, "race", "r")} },
-			RequireProbes: []string{"op_render", "op_render-shared", "op_render-struct", "op_js", "op_compile", "op_parse", "completed_render", "completed_render-shared", "completed_render-struct", "completed_js", "completed_compile", "completed_parse", "op_compile_malformed", "op_parse_malformed", "op_with_catalogue", "runs_with_pomsg_bundle", "runs_with_obligatory_directives", "runs_with_logger", "sched_random", "sched_pct", "sched_coarse", "sched_rr"},
+			RequireProbes: []string{"op_render", "op_render-shared", "op_render-struct", "op_js", "op_compile", "op_parse", "completed_render", "completed_render-shared", "completed_render-struct", "completed_js", "completed_compile", "completed_parse", "op_compile_malformed", "op_parse_malformed", "op_render_illtyped", "op_with_catalogue", "runs_with_pomsg_bundle", "runs_with_obligatory_directives", "runs_with_logger", "sched_random", "sched_pct", "sched_coarse", "sched_rr"},
 		}
 	})
 }
